@@ -1,2 +1,3 @@
 import NasdaqModel.Driver.Loop
-def main : IO Unit := NasdaqModel.Driver.mainLoop []
+import NasdaqModel.Driver.Registry
+def main : IO Unit := NasdaqModel.Driver.mainLoop [NasdaqModel.Driver.RegistryD.handle]
